@@ -86,8 +86,8 @@ Example C25_example :
   let t1 : fmap := [(b "a", (KLink, b "d/x")); (b "k", (KReg, b "K"))] in
   let other := (refs_heads ++ b "other")%list in
   let s := mkState [t0; t1] [(master, 0%Z); (other, 1%Z)] (HSym master)
-                   t0 [(b "a", (KReg, b "dirty")); (b "d/x", (KExec, b "X")); (b "u", (KReg, b "U"))] in
+                   t0 [(b "a", (KReg, b "dirty")); (b "d/x", (KExec, b "X")); (b "u", (KReg, b "U"))] [] in
   checkout (mkCopts other (-1) false true false) s
   = (None, mkState [t0; t1] [(master, 0%Z); (other, 1%Z)] (HSym other)
-                   t1 [(b "a", (KLink, b "d/x")); (b "k", (KReg, b "K")); (b "u", (KReg, b "U"))]).
+                   t1 [(b "a", (KLink, b "d/x")); (b "k", (KReg, b "K")); (b "u", (KReg, b "U"))] []).
 Proof. vm_compute. reflexivity. Qed.
